@@ -39,7 +39,7 @@ impl AuthData {
         let cmd = self
             .cmd
             .iter()
-            .map(|s| s.replace("#USER#", &user.0).replace("#PASS#", &user.1))
+            .map(|s| substitute(s, &user.0, &user.1))
             .collect::<Vec<_>>();
         trace!("auth_cmd: {:?}", cmd);
         let mut child = Command::new(&cmd[0]);
@@ -65,6 +65,30 @@ impl AuthData {
                 || self.auth_cmd(user).await
         } else {
             false
+        }
+    }
+}
+
+// Expands #USER# and #PASS# in one pass, so that a placeholder that is part of the user name or
+// password itself is passed on literally instead of being expanded again.
+fn substitute(template: &str, user: &str, pass: &str) -> String {
+    let mut out = String::with_capacity(template.len());
+    let mut rest = template;
+    loop {
+        let next = [("#USER#", user), ("#PASS#", pass)]
+            .iter()
+            .filter_map(|(k, v)| rest.find(k).map(|i| (i, *k, *v)))
+            .min_by_key(|x| x.0);
+        match next {
+            Some((i, k, v)) => {
+                out.push_str(&rest[..i]);
+                out.push_str(v);
+                rest = &rest[i + k.len()..];
+            }
+            None => {
+                out.push_str(rest);
+                return out;
+            }
         }
     }
 }
